@@ -119,6 +119,18 @@ theorem default_table_neighbours :
 theorem default_table_keys_lowercase :
     ∀ e ∈ BS.Gen.defaultCdataListAttributes, pyLower e.1 = e.1 := by decide +kernel
 
+/-- `str.lower()` of the model is the per-code-point lookup in the generated table (sorted, so the early-exit lookup is
+    the plain lookup) -/
+theorem lower_is_table_lookup (c : Nat) :
+    lowerCp c = match BS.Gen.lowerMap.lookup c with
+      | some l => l
+      | none => [c] := by
+  have h : sortedKeys BS.Gen.lowerMap = true := by decide +kernel
+  simp only [lowerCp, lookupSorted_eq_lookup _ c h]
+  cases List.lookup c BS.Gen.lowerMap <;> rfl
+
+example : pyLower (ofS "TD") = ofS "td" ∧ pyLower [0x212A] = ofS "k" ∧ pyLower [0x130] = [105, 0x307] := by decide +kernel
+
 /-- Refinement: over a dictionary (distinct keys, the plain `AttributeDict` the parser uses by default) the in-place
     loop of `_replace_cdata_list_attribute_values` computes the documented replacement — for the default table, a
     custom map, `{}` or `None` alike. -/
